@@ -174,6 +174,8 @@ func (c *FnCtx) tr(e *Expr, env *Env) (Term, types.Type) {
 	switch e.Op {
 	case "int":
 		return numStr(e.Name), types.Typ[types.UntypedInt]
+	case "real":
+		return e.Name, tReal
 	case "str":
 		return c.strLit(e.Name), tString
 	case "id":
@@ -514,6 +516,13 @@ func (c *FnCtx) trCall(e *Expr, env *Env) (Term, types.Type) {
 			return app("to_int", a), tInt
 		}
 		return a, tInt
+	case "concat":
+		a, _ := arg(0)
+		b, _ := arg(1)
+		return app("strcat", a, b), tString
+	case "asReal":
+		a, _ := arg(0)
+		return c.unbox(a, tReal), tReal
 	case "shift":
 		// shift(m, k)[i] == m[i + k] for integer-valued ghost maps
 		m, mt := arg(0)
